@@ -1031,6 +1031,7 @@ func (m *Manager) GetTask(id string) *Task {
 }
 
 func (m *Manager) updateTaskState(taskId string, state string) {
+	verifhook.Point("task.state.update", "task", taskId, "state", state)
 	taskPtr := m.roster.getByTaskId(taskId)
 	if taskPtr == nil {
 		if state != "DONE" {
